@@ -123,9 +123,10 @@ gates (by position, so that parameters not visible to the scheduler may differ),
 * `H2`: two qubit-sharing gates which `commutation_rules` declares commuting do commute,
 
 executing the gates cycle by cycle (any order inside a cycle, as returned) gives the same product as
-executing them in the original order.  `H1` is a fact about embedded operators (supplied centrally for
-ℂ-matrices).  **`H2` is false for the real gate library** (e.g. two `QASMU` gates on one qubit):
-see `C05_counterexample_den`; hence `_partial`. -/
+executing them in the original order.  `H1` is a fact about embedded operators (discharged for ℂ-matrices in
+`schedule_den_C`).  **`H2` is false for the rule before the repair**, where every name counts as self-commuting
+(`sc = true`, e.g. on two `QASMU` gates on one qubit): see `C05_counterexample_den`; hence `_partial`.  For the
+repaired rule `H2` is a theorem and no hypothesis of this kind is left: `schedule_den_C_full` (section e⁗). -/
 theorem schedule_den_partial (hO : ∀ r l, (O2 r l).Perm l) (g : Nat → M)
     (H1 : ∀ i j, i < ns.length → j < ns.length → shareIdx ns i j = false → Commute (g i) (g j))
     (H2 : ∀ i j, i < ns.length → j < ns.length → shareIdx ns i j = true →
@@ -170,8 +171,9 @@ example : shareIdx [⟨"Z", [0], [], 1, true⟩, ⟨"CNOT", [1], [0], 1, true⟩
 
 /-! ### the full statement (without `H2`) is false -/
 
-/-- the witness of the known finding: two `QASMU` gates on qubit 0 (their angles, invisible to the
-scheduler, differ: `QASMU(1,0,0)` and `QASMU(0,0,1)`) -/
+/-- the witness of the finding (repaired in /repo by `_SELF_COMMUTING_GATES`; replayed on the code on every check):
+two `QASMU` gates on qubit 0 (their angles, invisible to the scheduler, differ: `QASMU(1,0,0)` and `QASMU(0,0,1)`),
+flagged self-commuting (`sc = true`) as every instruction was under the old rule -/
 def witness : List Ins := [⟨"QASMU", [0], [], 1, true⟩, ⟨"QASMU", [0], [], 1, true⟩]
 
 /-- ALAP swaps the two gates of the witness. -/
@@ -198,8 +200,9 @@ theorem C05_counterexample_den :
 
 /-- **comm_rule_table.**  The rule declares exactly five families of pairs commuting: same name (listed
 as self-commuting by the module, `sc`, if it has such a list) with equal non-empty controls, or with equal targets; `CNOT` with `X`/`RX` on its target; `CNOT` with
-`Z`/`RZ` on its control (either order).  `H2` has to be discharged for these families; it fails for
-same-name pairs of families that do not commute with themselves. -/
+`Z`/`RZ` on its control (either order).  `H2` has to be discharged for these families (done in `Lemmas/SchedFam.lean`, `Lemmas/SchedFull.lean`); it fails for
+same-name pairs of families that do not commute with themselves, which is why the repaired rule restricts the same-name
+case to `_SELF_COMMUTING_GATES` (`sc`). -/
 theorem comm_rule_table (a b : Ins) : commRules a b = true ↔
     (a.name = b.name ∧ a.sc = true ∧ b.sc = true ∧
       ((a.controls ≠ [] ∧ a.controls = b.controls) ∨ a.targets = b.targets)) ∨
@@ -234,7 +237,8 @@ are interpreted by position; the only requirement is that the operator of gate `
 qubits of instruction `i` only (`SupportedOn`: it is `Tg.embed` of some compact matrix along some
 placement into `used_qubits` — any qubit order, any parameters).  Then `H1` holds
 (`Tg.embed_comm_of_disjoint`, `Lemmas/EmbedPerm.lean`, `Lemmas/SchedC.lean`), and only `H2` is left —
-which is false for the real gate library (`C05_counterexample_den`), hence still a hypothesis. -/
+false for the rule before the repair (`C05_counterexample_den`), hence a hypothesis here; discharged for the
+repaired rule in `schedule_den_C_full`. -/
 section denC
 open Matrix
 
